@@ -72,8 +72,8 @@ def ref_rows(term, full, free, rec):
             continue
         # conditioning of value and derivatives
         try:
-            row2 = {k: v * (1 + 1e-13 * (1 if j % 2 else -1)) for j, (k, v) in enumerate(row.items())}
-            full2 = {k: v * (1 + 1e-13 * (1 if j % 2 else -1)) for j, (k, v) in enumerate(full.items())}
+            row2 = {k: R._perturb(v, 1 if j % 2 else -1) for j, (k, v) in enumerate(row.items())}
+            full2 = {k: R._perturb(v, 1 if j % 2 else -1) for j, (k, v) in enumerate(full.items())}
             f2, g2, h2 = R.evaluate_hd(term, free, row2, full2, strict=False)
         except (R.OutOfDomain, R.Fragile):
             rec.count('rows_skipped_ill_conditioned')
